@@ -169,6 +169,15 @@ type live struct {
 }
 
 func handshakeTo(w *world, hidden bool) (*live, error) {
+	// the application accepts what is pending first: replayed valid requests
+	// (authentic datagrams, fresh for five seconds) each leave a connection in
+	// the accept backlog, and a full backlog turns the next one away by design
+	// (MaxPendingConnections) - that is not a wedge
+	for {
+		if _, err := w.srv.AcceptTimeout(time.Millisecond); err != nil {
+			break
+		}
+	}
 	cl, ep := w.newClient(w.name, hidden)
 	done := make(chan error, 1)
 	go func() { done <- cl.Handshake() }()
